@@ -28,7 +28,7 @@ Status of the full statement on the code as it is (`cfg.continueOnError = false`
          variant (`continueOnError = true`): `trigger_not_lost`; for the code as it is under the
          hypothesis that no call holding a reached threshold meets a rejected entry:
          `trigger_not_lost_partial`.
-  * D-11 (found here) a partial with *another* root stored after a group reached the threshold
+  * D-12 (found here) a partial with *another* root stored after a group reached the threshold
          re-triggers that group with the same payload: `double_trigger_late_minority` (witness).
          Proved for the fixed variant (`newRootOnly = true`): `trigger_at_most_once`; for the code
          as it is under the hypothesis that the partials of a key agree on the root:
@@ -319,7 +319,7 @@ def opsMinority : List Op :=
   callOps 1 att .scheduled [ent 0 2 0] false 0 false ++
   callOps 2 att .scheduled [ent 0 3 9] false 0 false
 
-/-- **D-11 witness (code as it is, also with the D-1 fix alone)**: the key is handed to the
+/-- **D-12 witness (code as it is, also with the D-1 fix alone)**: the key is handed to the
 subscribers twice, the second time with the very same partials, although every assumption of the
 contract holds and nothing was evicted. -/
 theorem double_trigger_late_minority :
